@@ -81,6 +81,16 @@ Example ex_unsupported :
        TSubscr (EName KFast "d") (EWalrus KFast "w" (EConst "1"));
        TAttr (ECallX 3 (EName KGlobal "f") [EConst "1"]) "y"] = [DNone; DNone; DNone].
 Proof. reflexivity. Qed.
+(* finding F16 (fixed in /repo): an attribute of a numeric constant is parenthesised and the Ellipsis
+   constant is rendered as "..." : `as (1).x`, `as (-1).x`, `as d[...]` read back as themselves *)
+Example ex_F16_fixed :
+  map (fun t => describe (compile_target V312 t ++ [IPopTop]))
+      [TAttr (EConst "1") "x"; TAttr (EConst "-1") "x"; TSubscr (EName KFast "d") (EConst "...");
+       TAttr (EMCall (EConst "1.5") "hex" []) "y"; TAttr (EConst "'s'") "y"] =
+  [DSome "(1).x"; DSome "(-1).x"; DSome "d[...]"; DSome "(1.5).hex().y"; DSome "'s'.y"] /\
+  map render_target [TAttr (EConst "1") "x"; TAttr (EConst "-1") "x"; TSubscr (EName KFast "d") (EConst "...")] =
+  ["(1).x"; "(-1).x"; "d[...]"].
+Proof. split; reflexivity. Qed.
 (* fallback: last local bound to the manager (object 7) *)
 Example ex_fallback :
   final_varname DNone [("m", 7); ("x", 3); ("alias", 7)] 7 = Some "alias" /\
